@@ -12,6 +12,7 @@ let rec int_of_pos (p : positive) : int =
   match p with XH -> 1 | XO q -> 2 * int_of_pos q | XI q -> 2 * int_of_pos q + 1
 let int_of_n (x : n) : int = match x with N0 -> 0 | Npos p -> int_of_pos p
 
+let rec nat_of_int (i : int) : nat = if i <= 0 then O else S (nat_of_int (i - 1))
 let hexval c = match c with
   | '0'..'9' -> Char.code c - 48 | 'a'..'f' -> Char.code c - 87 | 'A'..'F' -> Char.code c - 55
   | _ -> failwith "bad hex"
@@ -288,6 +289,30 @@ let run_case (toks : string list) : string =
          { ws_img = bytes_of_hex pre; ws_pos = n_of_hex pos; ws_log = [] })
   | ["rdirs"; _mode; c; ro; rl; lo; rg; img] ->
     out_str tiles_tok (read_directories cx (comp_of_tok c) (bytes_of_hex img) (n_of_hex ro) (n_of_hex rl) (n_of_hex lo) (range_of_tok rg))
+  | ["io_read_exact"; _mode; n; pos; sched; img] ->
+    let nn = n_of_hex n in
+    out_str (fun (b, s') -> hex_of_bytes b ^ " " ^ hex_of_n s'.rd_pos)
+      (read_exact (nat_of_int (int_of_n nn + 1)) nn { rd_img = bytes_of_hex img; rd_pos = n_of_hex pos; rd_sched = nums_of_tok sched; rd_log = [] })
+  | ["io_read_to_end"; _mode; limit; pos; sched; img] ->
+    let im = bytes_of_hex img in
+    out_str (fun (b, _) -> hex_of_bytes b)
+      (read_to_end (nat_of_int (List.length im + 2)) (n_of_int 32) (n_of_hex limit) { rd_img = im; rd_pos = n_of_hex pos; rd_sched = nums_of_tok sched; rd_log = [] })
+  | ["io_write_all"; _mode; pos; sched; pre; bs] ->
+    let b = bytes_of_hex bs in
+    out_str (fun w -> hex_of_bytes w.wr_st.ws_img ^ " " ^ hex_of_n w.wr_st.ws_pos)
+      (write_all (nat_of_int (List.length b + 1)) b { wr_st = { ws_img = bytes_of_hex pre; ws_pos = n_of_hex pos; ws_log = [] }; wr_sched = nums_of_tok sched })
+  | ["owin"; _mode; rg; img] ->
+    out_str (fun ws ->
+      (* merged, sorted, non-empty byte ranges *)
+      let rs = List.filter (fun (a, b) -> b > a) (List.map (fun (o, l) -> (int_of_n o, int_of_n o + int_of_n l)) ws) in
+      let rs = List.sort compare rs in
+      let rec merge acc l = match acc, l with
+        | _, [] -> List.rev acc
+        | (a, b) :: t, (c, d) :: r when c <= b -> merge ((a, max b d) :: t) r
+        | _, x :: r -> merge (x :: acc) r in
+      let m = merge [] rs in
+      if m = [] then "-" else String.concat "," (List.map (fun (a, b) -> Printf.sprintf "%x-%x" a b) m))
+      (open_windows cx (bytes_of_hex img) (range_of_tok rg))
   | ["hist"; _mode; ops] ->
     let ops = List.map op_of_tok (String.split_on_char ';' ops) in
     let (_, outs) = run cx (pm_new None) ops in
